@@ -470,6 +470,9 @@ def do_check(prop, P, tier, seed):
     if jobs is None:
         print('BUILD-FAILED property=%s' % prop)
         return 2
+    if tier == 'quick':
+        for j in jobs:
+            j.timeout = min(j.timeout, 1200)   # quick jobs finish in a minute or two; a hung one is cut off (INCOMPLETE)
     outdir = os.path.join(ROOT, 'build', 'run', '%s_%s_%d' % (prop, tier, os.getpid()))
     os.makedirs(outdir, exist_ok=True)
     with cf.ThreadPoolExecutor(max_workers=min(NCPU, max(1, len(jobs)))) as ex:
